@@ -40,6 +40,9 @@ type chainCase struct {
 	RecStatus int    `json:"recStatus"` // 0: default recover handler
 	ErrKind   int    `json:"errKind"`   // unrouted requests: 404 or 405
 	Conc      int    `json:"conc"`      // > 0: that many goroutines send this request concurrently
+	FlipAfter bool   `json:"flipAfter"` // the container switch has the other value while everything is registered
+	FailAt    int    `json:"failAt"`    // > 0: the underlying writer fails from that byte on (client gone)
+	Alt       bool   `json:"alt"`       // the second of two requests goes to the other route on the same method and path
 }
 
 type chainPlan struct {
@@ -51,11 +54,22 @@ type chainPlan struct {
 // ---------- event log ----------
 
 type devent struct {
-	K  string `json:"k"`
-	F  int    `json:"f"`
-	Rq int    `json:"rq"`
-	Rs int    `json:"rs"`
-	At []int  `json:"at"`
+	K   string `json:"k"`
+	F   int    `json:"f"`
+	Rq  int    `json:"rq"`
+	Rs  int    `json:"rs"`
+	At  []int  `json:"at"`
+	Who int    `json:"who"` // value of the attribute every passing filter overwrites
+}
+
+func whoOf(req *restful.Request) int {
+	if req == nil {
+		return 0
+	}
+	if v, ok := req.Attribute("who").(int); ok {
+		return v
+	}
+	return 0
 }
 
 type reqLog struct {
@@ -203,13 +217,27 @@ func seenAttrs(req *restful.Request, hr *http.Request, n int) []int {
 
 // svcTag != "": the filter belongs to service /<svcTag>; running for a request of another
 // service is logged as filter 99 (no request has such a filter: the monitor rejects it)
+func ownsRequest(tag string, r *http.Request) bool {
+	switch tag {
+	case "":
+		return true
+	case "alt": // the second route on /s/r, selected by a condition on this header
+		return strings.HasPrefix(r.URL.Path, "/s/") && r.Header.Get("X-Alt") != ""
+	case "s":
+		return strings.HasPrefix(r.URL.Path, "/s/") && r.Header.Get("X-Alt") == ""
+	case "sany": // service-level filters of /s serve both of its routes
+		return strings.HasPrefix(r.URL.Path, "/s/")
+	}
+	return strings.HasPrefix(r.URL.Path, "/"+tag+"/")
+}
+
 func genFilter(i int, script string, fwrites bool, nAll int, svcTag string) restful.FilterFunction {
 	return func(req *restful.Request, resp *restful.Response, chain *restful.FilterChain) {
 		l := logFor(req.Request)
-		if svcTag != "" && !strings.HasPrefix(req.Request.URL.Path, "/"+svcTag+"/") {
+		if !ownsRequest(svcTag, req.Request) {
 			l.add(devent{K: "enter", F: 99, Rq: l.id(req), Rs: l.id(resp)})
 		}
-		l.add(devent{K: "enter", F: i, Rq: l.id(req), Rs: l.id(resp), At: seenAttrs(req, req.Request, nAll)})
+		l.add(devent{K: "enter", F: i, Rq: l.id(req), Rs: l.id(resp), At: seenAttrs(req, req.Request, nAll), Who: whoOf(req)})
 		if script == "pb" {
 			l.add(devent{K: "panic", F: i})
 			panic(fmt.Sprintf("pb-%d", i))
@@ -232,8 +260,11 @@ func genFilter(i int, script string, fwrites bool, nAll int, svcTag string) rest
 				}
 			}
 			nreq.SetAttribute(fmt.Sprintf("f%d", i), 1)
+			// the attribute earlier filters set on the OLD request is set anew on the new one
+			req.SetAttribute("who", -i)
+			nreq.SetAttribute("who", i)
 			nresp := restful.NewResponse(resp.ResponseWriter)
-			l.add(devent{K: "pass", F: i, Rq: l.id(nreq), Rs: l.id(nresp)})
+			l.add(devent{K: "pass", F: i, Rq: l.id(nreq), Rs: l.id(nresp), Who: i})
 			chain.ProcessFilter(nreq, nresp)
 			l.add(devent{K: "ret", F: i})
 		case "mw":
@@ -249,7 +280,8 @@ func genFilter(i int, script string, fwrites bool, nAll int, svcTag string) rest
 			l.add(devent{K: "ret", F: i})
 		default: // pass, pa
 			req.SetAttribute(fmt.Sprintf("f%d", i), 1)
-			l.add(devent{K: "pass", F: i, Rq: l.id(req), Rs: l.id(resp)})
+			req.SetAttribute("who", i)
+			l.add(devent{K: "pass", F: i, Rq: l.id(req), Rs: l.id(resp), Who: i})
 			chain.ProcessFilter(req, resp)
 			l.add(devent{K: "ret", F: i})
 		}
@@ -307,7 +339,8 @@ func buildChainContainer(cs chainCase, instrument bool) *restful.Container {
 	nAll := cs.Lv[0] + cs.Lv[1] + cs.Lv[2]
 	c := restful.NewContainer()
 	c.DoNotRecover(!cs.Rec)
-	c.EnableContentEncoding(cs.CEnc)
+	c.EnableContentEncoding(cs.CEnc != cs.FlipAfter)
+	defer c.EnableContentEncoding(cs.CEnc)
 	if cs.RecStatus > 0 {
 		st := cs.RecStatus
 		c.RecoverHandler(func(pv interface{}, w http.ResponseWriter) {
@@ -326,7 +359,7 @@ func buildChainContainer(cs chainCase, instrument bool) *restful.Container {
 	c.ServiceErrorHandler(func(err restful.ServiceError, req *restful.Request, resp *restful.Response) {
 		if instrument {
 			l := logFor(req.Request)
-			l.add(devent{K: "target", F: 0, Rq: l.id(req), Rs: l.id(resp), At: seenAttrs(req, req.Request, nAll)})
+			l.add(devent{K: "target", F: 0, Rq: l.id(req), Rs: l.id(resp), At: seenAttrs(req, req.Request, nAll), Who: whoOf(req)})
 			l.wcalls++
 			l.written.WriteString(err.Message)
 		}
@@ -351,12 +384,12 @@ func buildChainContainer(cs chainCase, instrument bool) *restful.Container {
 	ws := new(restful.WebService).Path("/s")
 	for k := 0; k < cs.Lv[1]; k++ {
 		idx++
-		ws.Filter(genFilter(idx, script(idx), cs.FWrites, nAll, "s"))
+		ws.Filter(genFilter(idx, script(idx), cs.FWrites, nAll, "sany"))
 	}
 	target := func(req *restful.Request, resp *restful.Response) {
 		l := logFor(req.Request)
-		l.add(devent{K: "target", F: 0, Rq: l.id(req), Rs: l.id(resp), At: seenAttrs(req, req.Request, nAll)})
-		if !strings.HasPrefix(req.Request.URL.Path, "/s/") {
+		l.add(devent{K: "target", F: 0, Rq: l.id(req), Rs: l.id(resp), At: seenAttrs(req, req.Request, nAll), Who: whoOf(req)})
+		if !ownsRequest("s", req.Request) {
 			l.add(devent{K: "enter", F: 99})
 		}
 		if cs.Tgt == "panic" {
@@ -380,7 +413,27 @@ func buildChainContainer(cs chainCase, instrument bool) *restful.Container {
 	case "off":
 		rb.ContentEncodingEnabled(false)
 	}
-	ws.Route(rb)
+	ws.Route(rb.If(func(r *http.Request) bool { return r.Header.Get("X-Alt") == "" }))
+	ab := ws.GET("/r").If(func(r *http.Request) bool { return r.Header.Get("X-Alt") != "" }).To(func(req *restful.Request, resp *restful.Response) {
+		l := logFor(req.Request)
+		if !ownsRequest("alt", req.Request) {
+			l.add(devent{K: "enter", F: 99})
+		}
+		l.add(devent{K: "target", F: 0, Rq: l.id(req), Rs: l.id(resp), At: seenAttrs(req, req.Request, nAll), Who: whoOf(req)})
+		writeChunks(l, resp, cs.Payload, cs.Chunks)
+	})
+	aidx := cs.Lv[0] + cs.Lv[1]
+	for k := 0; k < cs.Lv[2]; k++ {
+		aidx++
+		ab.Filter(genFilter(aidx, script(aidx), cs.FWrites, nAll, "alt"))
+	}
+	switch cs.REnc {
+	case "on":
+		ab.ContentEncodingEnabled(true)
+	case "off":
+		ab.ContentEncodingEnabled(false)
+	}
+	ws.Route(ab)
 	ws.Route(ws.GET("/probe").To(func(req *restful.Request, resp *restful.Response) { resp.Write([]byte("probe-ok")) }))
 	c.Add(ws)
 	// a second service with the same number of service / route filters, but its own
@@ -395,7 +448,7 @@ func buildChainContainer(cs chainCase, instrument bool) *restful.Container {
 		if !strings.HasPrefix(req.Request.URL.Path, "/t/") {
 			l.add(devent{K: "enter", F: 99})
 		}
-		l.add(devent{K: "target", F: 0, Rq: l.id(req), Rs: l.id(resp), At: seenAttrs(req, req.Request, nAll)})
+		l.add(devent{K: "target", F: 0, Rq: l.id(req), Rs: l.id(resp), At: seenAttrs(req, req.Request, nAll), Who: whoOf(req)})
 		writeChunks(l, resp, cs.Payload, cs.Chunks)
 	})
 	for k := 0; k < cs.Lv[2]; k++ {
@@ -511,6 +564,7 @@ func runChainCase(tw *traceWriter, cs chainCase, rid *int) {
 	method, path := chainRequestPath(cs)
 	routedLike := cs.Routed && (cs.Entry == "D" || cs.Entry == "S")
 	// two requests in sequence on the same container (fresh chain, pool reuse)
+	prevPanicked := false
 	for rep := 0; rep < 2; rep++ {
 		*rid++
 		id := fmt.Sprint(*rid)
@@ -522,7 +576,11 @@ func runChainCase(tw *traceWriter, cs chainCase, rid *int) {
 		prov.mu.Lock()
 		prov.cur = l
 		prov.mu.Unlock()
-		hr, err := buildRequest(method, path, [][2]string{{"X-Rid", id}, {"Accept-Encoding", cs.AE}}, nil, false)
+		altHdr := ""
+		if cs.Alt && rep == 1 && routedLike {
+			altHdr = "1" // same method and path, the other route (chosen by a condition)
+		}
+		hr, err := buildRequest(method, path, [][2]string{{"X-Rid", id}, {"Accept-Encoding", cs.AE}, {"X-Alt", altHdr}}, nil, false)
 		if err != nil {
 			fatal("bad request: %v", err)
 		}
@@ -530,14 +588,20 @@ func runChainCase(tw *traceWriter, cs chainCase, rid *int) {
 		if cs.PreCE != "" {
 			rec.Header().Set("Content-Encoding", cs.PreCE)
 		}
+		var out http.ResponseWriter = rec
+		var fw *countingWriter
+		if cs.FailAt > 0 {
+			fw = &countingWriter{hdr: rec.Header(), budget: cs.FailAt}
+			out = fw
+		}
 		var pv interface{}
 		func() {
 			defer func() { pv = recover() }()
 			switch cs.Entry {
 			case "D":
-				c.Dispatch(rec, hr)
+				c.Dispatch(out, hr)
 			default:
-				c.ServeHTTP(rec, hr)
+				c.ServeHTTP(out, hr)
 			}
 		}()
 		prov.mu.Lock()
@@ -574,10 +638,10 @@ func runChainCase(tw *traceWriter, cs chainCase, rid *int) {
 			if e.K == "rel" {
 				nrel++
 			}
-			tw.emit(map[string]interface{}{"e": "dev", "k": e.K, "f": e.F, "rq": e.Rq, "rs": e.Rs, "at": e.At})
+			tw.emit(map[string]interface{}{"e": "dev", "k": e.K, "f": e.F, "rq": e.Rq, "rs": e.Rs, "at": e.At, "who": e.Who})
 		}
 		for k := 0; k < nrecDefault; k++ {
-			tw.emit(map[string]interface{}{"e": "dev", "k": "recover", "f": 0, "rq": 0, "rs": 0, "at": []int{}})
+			tw.emit(map[string]interface{}{"e": "dev", "k": "recover", "f": 0, "rq": 0, "rs": 0, "at": []int{}, "who": 0})
 		}
 		_ = wroteBeforePanic
 		esc := 0
@@ -613,10 +677,25 @@ func runChainCase(tw *traceWriter, cs chainCase, rid *int) {
 		if !wknown {
 			decodedEq, bodyEq = decOK, true
 		}
+		status := rec.Code
+		if fw != nil {
+			// the client went away: what arrived is unknown, only the bookkeeping (ledger) is judged
+			decOK, decodedEq, bodyEq = true, true, true
+			status = fw.status
+			if status == 0 {
+				status = 200
+			}
+		}
 		obs := map[string]interface{}{"entry": cs.Entry, "cEnc": cs.CEnc, "rEnc": cs.REnc, "routed": routedLike, "ae": cs.AE,
 			"preCE": cs.PreCE, "ce": ce, "acq": nacq, "rel": nrel, "decodeOK": decOK, "decodedEq": decodedEq, "bodyEq": bodyEq,
-			"status": rec.Code, "wroteBefore": wroteBefore, "recStatus": cs.RecStatus, "wknown": wknown, "len": len(wr)}
-		tw.emit(map[string]interface{}{"e": "dend", "esc": esc, "escEq": escEq, "obs": obs, "probesEq": probesEq, "addDone": addDone})
+			"status": status, "wroteBefore": wroteBefore || fw != nil, "recStatus": cs.RecStatus, "wknown": wknown, "len": len(wr)}
+		tw.emit(map[string]interface{}{"e": "dend", "esc": esc, "escEq": escEq, "obs": obs, "probesEq": probesEq, "addDone": addDone, "prevPanicked": prevPanicked})
+		prevPanicked = false
+		for _, e := range l.evs {
+			if e.K == "panic" {
+				prevPanicked = true
+			}
+		}
 		logsMu.Lock()
 		delete(logs, id)
 		logsMu.Unlock()
@@ -677,13 +756,13 @@ func runChainConc(tw *traceWriter, cs chainCase, rid *int) {
 	for _, r := range results {
 		tw.emit(map[string]interface{}{"e": "dreq", "rid": r.id, "n": nRun(cs), "rec": cs.Rec, "case": cs, "rep": 0})
 		for _, e := range r.l.evs {
-			tw.emit(map[string]interface{}{"e": "dev", "k": e.K, "f": e.F, "rq": e.Rq, "rs": e.Rs, "at": e.At})
+			tw.emit(map[string]interface{}{"e": "dev", "k": e.K, "f": e.F, "rq": e.Rq, "rs": e.Rs, "at": e.At, "who": e.Who})
 		}
 		esc := 0
 		if r.esc {
 			esc = 1
 		}
-		tw.emit(map[string]interface{}{"e": "dend", "esc": esc, "escEq": true, "obs": map[string]interface{}{"entry": "conc"}, "probesEq": true, "addDone": true})
+		tw.emit(map[string]interface{}{"e": "dend", "esc": esc, "escEq": true, "obs": map[string]interface{}{"entry": "conc"}, "probesEq": true, "addDone": true, "prevPanicked": false})
 		logsMu.Lock()
 		delete(logs, fmt.Sprint(r.id))
 		logsMu.Unlock()
@@ -736,6 +815,13 @@ func randomChainCase(r *rand.Rand, mode string) chainCase {
 	}
 	if mode == "chain" && r.Intn(4) == 0 {
 		cs.Conc = 8
+	}
+	cs.Alt = r.Intn(3) == 0
+	if mode == "enc" {
+		cs.FlipAfter = r.Intn(3) == 0
+		if r.Intn(6) == 0 {
+			cs.FailAt = 1 + r.Intn(40)
+		}
 	}
 	return cs
 }
